@@ -51,30 +51,44 @@ def monitor(case, obs):
     n_typed = len(case.get("stdin") or [])
     if any(l != "" for l in reads[n_typed:]): return "a read after the end of the input returned %r" % reads[n_typed:]
     if reads[:n_typed] != (case.get("stdin") or [])[:len(reads)][:n_typed]: return "lines read %r differ from the lines typed %r" % (reads, case.get("stdin"))
-    # (2) each input() gets the arguments of the prompt that asked
+    # (2) each input() gets the arguments of an outstanding prompt of that screen;
+    # (3)+(4) the line goes to the most recent accepted requester, exactly once, before the next read - unless the application stopped.
+    # Applied where every request is visible to the oracle: no paging (heights >= 30), no raw loop API, no force-quit.
     last_prompt = {}
-    plain = case.get("mode") == "tame" and not any(ev[0] == "api" and ev[1] in ("get_user_input", "force_quit", "raise_err", "proc", "new_loop", "close_loop") for i, ev, ctx in x.events()) \
-        and all(s.get("height", 30) >= 30 for s in case["screens"]) and not any(s.get("skip_check") for s in case["screens"])
-    asked = None; pending_read = None
+    plain = not any(ev[0] == "api" and ev[1] in ("force_quit", "proc", "new_loop", "close_loop") for i, ev, ctx in x.events()) \
+        and all(s.get("height", 30) >= 30 for s in case["screens"])
+    counts = {}
+    stack = []            # outstanding accepted requests: ("scr", screen) | ("blocking", screen)
+    pending_read = None   # (receiver, line) of the last read, until delivered
     for i, ev, ctx in x.events():
         if ev[0] == "cb" and ev[2] == "prompt":
-            last_prompt.setdefault(ev[1], []).append(ev[3]); asked = ev[1]
+            last_prompt.setdefault(ev[1], []).append(ev[3])
+            k = counts.get(ev[1], 0); counts[ev[1]] = k + 1
+            sc = ((x.specs[ev[1]].get("scripts") or {}).get("prompt") or [])
+            ent = sc[k] if k < len(sc) else {}
+            # the request is issued when prompt() returns: after the actions of its script (which the oracle sees as later events) - record it as a marker to be
+            # activated at the next observation that is not part of this callback; scripts of prompt() are rare, so only script-free prompts are tracked exactly
+            if ent.get("acts"): plain = False
+            if ent.get("ret") != "none":
+                if not stack or x.specs[ev[1]].get("skip_check"): stack.append(("scr", ev[1]))
+        if ev[0] == "api" and ev[1] == "get_user_input":
+            if not stack or x.specs[ev[2]].get("skip_check"): stack.append(("blocking", ev[2]))
         if ev[0] == "read":
-            if plain and pending_read is not None:
-                return "the line %r was read for the prompt of screen %d and never delivered before the next read" % pending_read[::-1]
-            pending_read = (asked, ev[1])
+            if plain and pending_read is not None and pending_read[0][0] == "scr":
+                return "the line %r was read for the prompt of screen %d and never delivered before the next read" % (pending_read[1], pending_read[0][1])
+            pending_read = ((stack[-1] if stack else ("?", None)), ev[1]); stack = []
         if ev[0] == "cb" and ev[2] == "input":
             scr, args, key = ev[1], ev[3], ev[4]
-            # the arguments are those of an outstanding prompt of that screen (prompts can nest: a prompt() callback that itself shows a modal screen)
             if args not in last_prompt.get(scr, []): return "input() of screen %d got args %r, its outstanding prompts were asked with %r" % (scr, args, last_prompt.get(scr))
             last_prompt[scr].remove(args)
             if plain:
                 if pending_read is None: return "input() of screen %d received %r without a preceding read" % (scr, key)
                 if pending_read[1] != key: return "input() received %r, the line read was %r" % (key, pending_read[1])
-                if pending_read[0] is not None and pending_read[0] != scr: return "the line %r typed at the prompt of screen %r was handed to screen %d" % (key, pending_read[0], scr)
+                if pending_read[0][0] == "scr" and pending_read[0][1] != scr: return "the line %r typed at the prompt of screen %r was handed to screen %d" % (key, pending_read[0][1], scr)
+                if pending_read[0][0] == "blocking": return "the line %r answered a blocking request but was handed to input() of screen %d" % (key, scr)
                 pending_read = None
-    if plain and pending_read is not None and obs["outcome"][0] == "blocked":
-        return "the line %r typed at the prompt of screen %r was read and never delivered: the application hangs" % (pending_read[1], pending_read[0])
+    if plain and pending_read is not None and pending_read[0][0] == "scr" and obs["outcome"][0] == "blocked":
+        return "the line %r typed at the prompt of screen %r was read and never delivered: the application hangs" % (pending_read[1], pending_read[0][1])
     return None
 
 
